@@ -4,9 +4,10 @@ SetToSeq(S) == CHOOSE s \in [1..Cardinality(S) -> S] : \A i, j \in 1..Cardinalit
 OwnSeq(o) == LET ns == SetToSeq(DOMAIN objs[o].own) IN [k \in 1..Len(ns) |-> [n |-> ns[k], kind |-> objs[o].own[ns[k]]]]
 Emit == Len(objs) > 0 =>
   PrintT("CASE " \o ToJson([
-     objs |-> [o \in 1..Len(objs) |-> [proto |-> objs[o].proto, how |-> objs[o].how, src |-> objs[o].src, own |-> OwnSeq(o)]],
+     objs |-> [o \in 1..Len(objs) |-> [proto |-> objs[o].proto, how |-> objs[o].how, src |-> objs[o].src, own |-> OwnSeq(o),
+                                        tagged |-> objs[o].tagged, rk |-> objs[o].rk, efftag |-> EffTag(o), root |-> RootKind(o)]],
      res  |-> [o \in 1..Len(objs) |-> [k \in 1..Len(Query) |-> Resolve(o, Query[k])]],
      noise |-> noise,
      anc  |-> [o \in 1..Len(objs) |-> Ancestors(o)],
-     kind |-> [o \in 1..Len(objs) |-> [x \in 1..Len(objs) |-> KindOf(o, x)]]]))
+     kind |-> [o \in 1..Len(objs) |-> [x \in 1..Len(objs) |-> KindOfObs(o, x)]]]))
 =============================================================================
